@@ -30,7 +30,7 @@ import (
 var driverText string
 
 // factoryVersion is part of every cache key: bump it when the files the factory itself writes change.
-const factoryVersion = "4"
+const factoryVersion = "5"
 
 // Spec is one probe server: a schema and a gqlgen.yml body.
 type Spec struct {
@@ -42,6 +42,9 @@ type Spec struct {
 	StubFile string
 	// Race builds the probe with the Go race detector.
 	Race bool
+	// ParsePrelude is SDL the factory prepends when it parses the schema itself (directive definitions that a
+	// plugin adds during generation, e.g. federation's @key); it is not written to the probe module.
+	ParsePrelude string
 }
 
 func repoDir() string {
@@ -133,8 +136,8 @@ var goEnv = func() []string {
 	return append(env, "GOFLAGS=-mod=mod", "GOPROXY=off")
 }()
 
-func typesFile(schemaText string) (string, error) {
-	sch, err := gqlparser.LoadSchema(&ast.Source{Name: "schema.graphqls", Input: schemaText})
+func typesFile(schemaText, prelude string) (string, error) {
+	sch, err := gqlparser.LoadSchema(&ast.Source{Name: "schema.graphqls", Input: prelude + schemaText})
 	if err != nil {
 		return "", err
 	}
@@ -248,7 +251,7 @@ func Build(s Spec, keepDir bool) (*Built, error) {
 		}
 		return fail()
 	}
-	tf, err := typesFile(strings.Join(all, "\n"))
+	tf, err := typesFile(strings.Join(all, "\n"), s.ParsePrelude)
 	if err != nil {
 		return nil, err
 	}
